@@ -34,6 +34,7 @@ def run(ctx):
             # the `_unchecked` forms of the comparison API are their `_internal` bodies (a re-implemented twin is a second, unchecked implementation)
             ctx.guard("C17", "twins", lambda: features.twins(ctx, prog, scope='internals::compare::|position_array::', floor=8))
         ctx.guard("C17", "distance-exits", lambda: effbs.distance_exits(ctx, prog))
+        ctx.guard("C17", "full-eq", lambda: eqord.full_eq(ctx, prog))
         ctx.guard("C17", "summaries", lambda: summary.check(ctx, prog, 'compare::position_array::|FuzzyHashCompareTarget::(new|init_from|block_hash_[12]|is_equiv|full_eq|log_block_size|block_size)|core::default::Default>::default', floor=10))
         ctx.guard("C17", "path summaries", lambda: summary.check_paths(ctx, prog, 'compare::position_array::|FuzzyHashCompareTarget::(new|init_from|block_hash_[12]|is_equiv|full_eq|log_block_size|block_size)|core::default::Default>::default', floor=6))
         if c in ("dbg", "unsafe_dbg", "strict_dbg"):
